@@ -928,8 +928,14 @@ class Tr:
             out[v]["gpr_of"] = mm.group(1)
         seen, pre, post = arms_of("format_register", r"self\.raw")
         for v, rhs in seen.items():
-            if rhs != "ctx.format_register(reg)":
-                die(w + "format_register %s: %r" % (v, rhs))
+            # the forwarding call, or a rendering of its own: format!("<prefix>{:[0]<digits>x}", ctx.get_register_always(reg))
+            fm = re.fullmatch(r'format!\("([^"{}\\]*)\{:(0?)(\d+)x\}", ctx\.get_register_always\(reg\)\)', rhs)
+            if rhs == "ctx.format_register(reg)":
+                out[v]["md_fmt"] = None
+            elif fm:
+                out[v]["md_fmt"] = (fm.group(1), fm.group(2) == "0", int(fm.group(3)))
+            else:
+                die(w + "format_register %s: %r is neither ctx.format_register(reg) nor format!(\"<prefix>{:[0]<digits>x}\", ctx.get_register_always(reg))" % (v, rhs))
         seen, pre, post = arms_of("register_size", r"&self\.raw")
         if pre != "fn get<T: CpuContext>(_: &T) -> usize { std::mem::size_of::<T::Register>() }" or post:
             die(w + "register_size: shape changed: %r" % pre)
@@ -1072,7 +1078,7 @@ class Tr:
             t["fmt"] = self.fmt
             if not t["custom_valid"]:
                 t["valid_default"], t["valid_all"] = self.default_valid
-            for key in ("md_get", "md_valid", "md_filter", "md_size"):
+            for key in ("md_get", "md_valid", "md_filter", "md_size", "md_fmt"):
                 t[key] = disp[v][key]
             t["md_regs_val"] = self.md_regs_val
             t["md_get_val"] = self.md_get_val
@@ -1285,6 +1291,9 @@ def emit(tables):
         o.append("  (* MinidumpContext::registers pairs a name with %s; register_size arm: %s *)" % (show_aexp(t["md_regs_val"]), show_aexp(t["md_size"])))
         o.append("  ct_md_regs_val := %s;" % coq_aexp(t["md_regs_val"]))
         o.append("  ct_md_size := %s;" % coq_aexp(t["md_size"]))
+        o.append("  (* MinidumpContext::format_register arm: %s *)" % ("forwards ctx.format_register(reg)" if t["md_fmt"] is None else
+                 "own rendering, prefix %r, %s-padded to %d digits" % (t["md_fmt"][0], "zero" if t["md_fmt"][1] else "space", t["md_fmt"][2])))
+        o.append("  ct_md_fmt := %s;" % ("None" if t["md_fmt"] is None else "(Some (%s, %s, %d))" % (coq_str(t["md_fmt"][0]), "true" if t["md_fmt"][1] else "false", t["md_fmt"][2])))
         o.append("  ct_fields := %s;" % coq_list("(%s, %d, %s, %d)" % (coq_str(f), w, coq_z(n), off) for f, w, n, off in t["fields"]))
         o.append("  ct_gpr := %s" % coq_list(coq_str(r) for r in t["gpr"]))
         o.append("|}.")
